@@ -157,7 +157,9 @@ func c08Cells() []c08Cell {
 			rr := gen.Report(r)
 			rr.TotalLost = tl
 			want := make([]byte, 24)
-			put32 := func(o int, v uint32) { want[o], want[o+1], want[o+2], want[o+3] = byte(v>>24), byte(v>>16), byte(v>>8), byte(v) }
+			put32 := func(o int, v uint32) {
+				want[o], want[o+1], want[o+2], want[o+3] = byte(v>>24), byte(v>>16), byte(v>>8), byte(v)
+			}
 			put32(0, rr.SSRC)
 			put32(4, uint32(rr.FractionLost)<<24|tl&0xFFFFFF)
 			put32(8, rr.LastSequenceNumber)
